@@ -48,19 +48,11 @@ pub struct FaultRes {
 }
 
 fn dead_in(r: &Ret) -> bool {
-    let dv = |v: &VV| v.0 == 255 || v.1 == 255;
     match r {
-        Ret::V(Some(v)) => dv(v),
-        Ret::KV(Some((k, v))) => *k == 255 || dv(v),
-        Ret::Put(p) | Ret::OrPut(_, Some(p)) | Ret::BoolOrPut(_, Some(p)) => match p {
-            PR::Put => false,
-            PR::Update(v) => dv(v),
-            PR::Evicted(k, v) => *k == 255 || dv(v),
-            PR::EvictedAndUpdate((k, v), u) => *k == 255 || dv(v) || dv(u),
-        },
+        // iterator drains: a dead key (255) or a dead value ((255,255)) among the yielded items
+        Ret::Ents(v) => v.iter().any(|(k, val)| *k == 255 || *val == (255, 255)),
         Ret::Many(v) => v.iter().any(dead_in),
-        Ret::Ents(v) => v.iter().any(|(k, v)| (*k == 255 && v.0 != 0) || (v.0 == 255 && *k != 255 && v.1 == 255)),
-        _ => false,
+        _ => crate::oracle::ret_has_dead(r),
     }
 }
 
@@ -299,7 +291,10 @@ pub fn run(tier: Tier) -> EngineReport {
         }
         let fd = fault_driver(&cfg);
         let fo = fops(&cfg);
-        let follows: Vec<Op> = mutators(&cfg);
+        // follow-ups: every mutator, and the read paths that hand entries out (a dropped value still linked
+        // in the list is a hazard the moment an iterator or a peek returns it)
+        let mut follows: Vec<Op> = mutators(&cfg);
+        follows.extend(observers(&cfg).into_iter().filter(|o| matches!(o, Op::Iters | Op::PeekLru | Op::PeekMru | Op::GetMru | Op::SegPeeks | Op::Peek(_))));
         let second = tier == Tier::Thorough;
         let stats: Vec<Stat> = hists
             .par_iter()
@@ -410,12 +405,112 @@ pub fn run(tier: Tier) -> EngineReport {
             rep.samples.push(json!({"engine": "faults", "config": cfg.label(), "state_history": format!("{:?}", h), "example": "every op x every Hash/Eq/Clone/Drop/hasher/callback call index x every follow-up op"}));
         }
     }
+    run_conversions(&mut rep, &mut details);
     rep.capped = if rep.exhaustive { None } else { Some("state prefix cap hit in some configuration (see detail)".into()) };
     rep.detail = json!(details);
     rep
 }
 
+/// Conversions into a RawLRU (`From<[(K,V);N]>`, `From<Vec>`, `From<&[..]>`, `From<&mut [..]>`, `From<VecDeque>`,
+/// `From<LinkedList>`, `collect()`): a panic at every call into Hash/Eq/Clone/Drop of the items, then the
+/// (possibly half-built) result is dropped.
+pub fn execute_convert(which: u8, n: u8, inject: Option<(FK, u32)>) -> FaultRes {
+    use caches::RawLRU;
+    use crate::track::{KeyT, ValT};
+    let mut res = FaultRes::default();
+    let _ = panics::take_last();
+    alloc::begin();
+    track::begin();
+    {
+        let items: Vec<(TK, TV)> = (0..n).map(|i| (TK::mk(i % 2 + (i / 2)), TV::mk(i, 0))).collect();
+        fault::start(inject);
+        let r = catch_unwind(AssertUnwindSafe(move || {
+            let c: RawLRU<TK, TV> = match which {
+                0 => RawLRU::from(items),
+                1 => RawLRU::from(&items[..]),
+                2 => {
+                    let mut it = items;
+                    RawLRU::from(&mut it[..])
+                }
+                3 => RawLRU::from(items.into_iter().collect::<std::collections::VecDeque<_>>()),
+                4 => RawLRU::from(items.into_iter().collect::<std::collections::LinkedList<_>>()),
+                5 => items.into_iter().collect::<RawLRU<TK, TV>>(),
+                _ => {
+                    let mut it = items.into_iter();
+                    match (it.next(), it.next(), it.next()) {
+                        (Some(a), Some(b), Some(c)) => RawLRU::from([a, b, c]),
+                        (Some(a), Some(b), None) => RawLRU::from([a, b]),
+                        (Some(a), None, None) => RawLRU::from([a]),
+                        _ => RawLRU::from([(TK::mk(0), TV::mk(0, 0)); 0]),
+                    }
+                }
+            };
+            // read everything back, then drop
+            let dead = c.iter().any(|(k, v)| k.id() == 255 || v.kv() == (255, 255));
+            drop(c);
+            dead
+        }));
+        let (counts, fired) = fault::stop();
+        res.counts = counts;
+        res.fired = inject.is_some() && fired;
+        match r {
+            Ok(true) => res.hazards.push(format!("conversion #{} produced a cache holding a dead key/value", which)),
+            Ok(false) => {}
+            Err(_) => res.op_panicked = true,
+        }
+    }
+    for e in track::take_errors() {
+        res.hazards.push(e);
+    }
+    let rep = alloc::end();
+    for e in rep.errors {
+        res.hazards.push(e);
+    }
+    res.leaked_blocks = rep.leaked_blocks;
+    res
+}
+
+const CONVERSIONS: [&str; 7] = ["From<Vec>", "From<&[..]>", "From<&mut [..]>", "From<VecDeque>", "From<LinkedList>", "collect()", "From<[(K,V); N]>"];
+
+fn run_conversions(rep: &mut EngineReport, details: &mut Vec<Value>) {
+    let mut points = 0u64;
+    let mut execs = 0u64;
+    for which in 0..CONVERSIONS.len() as u8 {
+        for n in [0u8, 1, 3, 4] {
+            // items: 4 items with one duplicate key, so the update path of put runs as well
+            let dry = execute_convert(which, n, None);
+            execs += 1;
+            for kind in fault::ALL {
+                for i in 0..dry.counts[kind as usize] {
+                    points += 1;
+                    let r = execute_convert(which, n, Some((kind, i)));
+                    execs += 1;
+                    for hz in &r.hazards {
+                        let class = if hz.contains("double drop") { "double_drop" } else if hz.contains("double free") || hz.contains("free of block") { "double_free" } else { "use_of_dead_object" };
+                        rep.violations.push(Extra {
+                            finding: Finding::new("C18", "no_hazard_after_user_panic", format!("conversion/{}/{}/{:?}", CONVERSIONS[which as usize], class, kind), format!("{} — panic injected at {:?} call #{} while building a RawLRU with {} from {} items", hz, kind, i, CONVERSIONS[which as usize], n)),
+                            case: json!({"engine": "faults-convert", "which": which, "n": n, "inject": [kind, i]}),
+                            count: 1,
+                        });
+                    }
+                }
+            }
+        }
+    }
+    rep.transitions += points;
+    rep.evaluations += execs;
+    rep.distinct_nontrivial += points;
+    details.push(json!({"config": "conversions into RawLRU (DefaultHashBuilder)", "conversions": CONVERSIONS, "item_counts": [0, 1, 3, 4], "fault_points": points, "executions": execs}));
+}
+
 pub fn replay_case(case: &Value) -> Vec<Finding> {
+    if case["engine"] == "faults-convert" {
+        let which = case["which"].as_u64().unwrap_or(0) as u8;
+        let n = case["n"].as_u64().unwrap_or(0) as u8;
+        let inject: Option<(FK, u32)> = serde_json::from_value(case["inject"].clone()).ok();
+        let r = execute_convert(which, n, inject);
+        return r.hazards.iter().map(|h| Finding::new("C18", "no_hazard_after_user_panic", "conversion", h.clone())).collect();
+    }
     let cfg: Cfg = serde_json::from_value(case["cfg"].clone()).unwrap();
     let hist: Vec<Op> = serde_json::from_value(case["history"].clone()).unwrap();
     let fop: FOp = serde_json::from_value(case["fop"].clone()).unwrap();
